@@ -32,6 +32,8 @@ fn c05_optimised_and_plain_engines_agree() {
         "|https://ab.cd/", "|https://ab.cd/ab/cd/ab", "|https://ab.cd/ab/cd/ab/cd/ab", "|https://ab.cd/ab/cd/ab/cd/ab/cd/ab",
         // exact-URL rules of equal length that differ in a one-letter token only (they share their bucket)
         "|https://example.com/ads/a.js|", "|https://example.com/ads/b.js|", "|https://example.com/ads/c.js|",
+        // full-regex rules fuse into one regex set per option group: written in mixed case, with negated classes, with and without match-case
+        r"/adv[0-9]+\.js/", r"/BANNER\D\d/", r"/track(er|ing)\.gif/", r"/CaseSens[A-Z]/$match-case", r"/Other[a-z]X/$match-case",
     ];
     let plain = engine(&rules, false);
     let optimised = engine(&rules, true);
@@ -44,6 +46,7 @@ fn c05_optimised_and_plain_engines_agree() {
         "https://x.io/ads/a.gif", "https://x.io/ads/b.gif", "https://x.io/ads/c.gif", "https://x.io/ads/d.gif", "https://x.io/pic.png", "https://x.io/banner1", "https://x.io/banner3",
         "https://ab.cd/", "https://ab.cd/x", "https://ab.cd/ab/cd/ab", "https://ab.cd/ab/cd/abx", "https://ab.cd/ab/cd/ab/cd/ab/", "https://ab.ce/",
         "https://example.com/ads/a.js", "https://example.com/ads/b.js", "https://example.com/ads/c.js", "https://example.com/ads/d.js", "https://example.com/ads/a.js?x",
+        "https://r.io/adv12.js", "https://r.io/ADV12.JS", "https://r.io/banner-7", "https://r.io/Banner77", "https://r.io/tracking.gif", "https://r.io/CaseSensQ", "https://r.io/casesensq", "https://r.io/OtheraX", "https://r.io/otherax",
     ] {
         for (t, src) in [("image", "https://news.example/"), ("script", "https://news.example/"), ("document", "https://news.example/"), ("image", "https://foo.com/"), ("image", "https://bar.com/"), ("script", "https://foo.com/")] {
             let req = Request::new(url, src, t).unwrap();
@@ -56,6 +59,10 @@ fn c05_optimised_and_plain_engines_agree() {
             pc.sort(); oc.sort();
             assert_eq!(pc, oc, "csp directives differ for {} ({})", url, t);
         }
+    }
+    // controls: the regex rules are live, in the case they were written for
+    for (u, want) in [("https://r.io/adv12.js", true), ("https://r.io/banner-7", true), ("https://r.io/Banner77", false), ("https://r.io/CaseSensQ", true), ("https://r.io/casesensq", false)] {
+        assert_eq!(optimised.check_network_request(&Request::new(u, "https://news.example/", "image").unwrap()).matched, want, "{}", u);
     }
     // controls: the short rules are live
     assert!(plain.check_network_request(&Request::new("https://a.io/banners/top", "https://news.example/", "image").unwrap()).matched);
